@@ -25,6 +25,7 @@ CFG = dict(
              "different columns; same pk with different columns, different pk, emitUnchanged; random pairs (disjoint, nested, "
              "edited copy, overlapping). window cases (tag 1): all pairs of strictly increasing first-key vectors of length "
              "<=4 over 6 words (prefix-related) x every off1 x every prevEnd 0..n, plus random composite vectors. "
+             "prefix batch: 2- and 3-column keys whose components come from a family built to break join-then-compare (\"\", \" \", a, a\\x00, \"a \", a!, a\\\", \"a,\", a-, ab, a\\xff, \"b,\", \\x80; second components starting with a digit or a space), groups sharing the first component straddling or exceeding block boundaries, tables of up to 6 blocks, all ordered pairs; windows-prefix: all pairs of strictly increasing vectors of length <=3 over 8 (thorough 10) such 2-column keys and of length <=2 (thorough 3) over 9 3-column keys with the prefix relation in the middle column; window cases are run before the table cases. "
              "flags on tag-0 cases: emitUnchanged on for all exhaustive pairs and a fifth of the block pairs; both tables in one "
              "object store (default: each table in its own store, db1 != db2) for a third of the exhaustive pairs, a sixth "
              "of the block pairs and all edge pairs. reader cases (tag 3): DiffTables consumed through RowListReader / "
